@@ -19,7 +19,7 @@ LEVEL = "exploration"
 RULE = ("every built-in data command x 1..5 inputs x rank 1-3 shapes x int/float dtypes x mask styles (nomask, all-false, random, "
         "single cell, all-but-one, all) x 3 payloads under the mask; CSV cases vary the number stored in missing cells; distinct by "
         "(command, n, rank, dtypes, mask classes, params)")
-REQUIRED_COUNTERS = ["mask_superset_checks", "mask_exact_checks", "payload_variation_checks", "masked_input_cells", "csv_payload_checks", "follow_up_mask_checks"]
+REQUIRED_COUNTERS = ["mask_superset_checks", "mask_exact_checks", "payload_variation_checks", "masked_input_cells", "csv_payload_checks", "follow_up_mask_checks", "netcdf_fill_mask_checks"]
 ASSUMPTIONS = ["what is stored under result masks and fill values are not judged", "NaN/inf and zero-length arrays are never generated",
                "cases where the reference is undefined (constant arrays, equal thresholds, zero weight sums) only get check (a) and (c)"]
 
@@ -46,7 +46,21 @@ def cases(ctx):
                 s["mask"][rng.randrange(n)] = True
         c["kind"] = "array"
         c["payloads"] = list(rng.choice(PAYLOAD_SETS))
+        if len(c["inputs"]) >= 2 and rng.random() < 0.12:
+            # the first listed input is a plain array (nothing missing): the missing cells of the others still count
+            c["inputs"][0]["kind"] = "plain"
+            c["inputs"][0]["mask"] = None
         yield c
+    for _ in range(ctx.n(60, 3000)):
+        n = rng.randint(2, 10)
+        vals = [arr.lattice_value(rng) for _ in range(n)]
+        fill = [rng.random() < 0.3 for _ in range(n)]
+        if all(fill):
+            fill[0] = False
+        if not any(fill):
+            fill[-1] = True
+        yield {"kind": "ncread", "values": vals, "fill": fill, "missing_value": rng.choice([v for v, f in zip(vals, fill) if not f] + [4242.0]),
+               "chain": rng.choice([["Copy"], ["Sum"], ["Normalize"], ["CvtToFuzzy"], ["Mean"], ["Multiply"]])}
     for _ in range(ctx.n(160, 6000)):
         yield gen_csv_case(rng)
 
@@ -74,12 +88,55 @@ def _union_mask(inputs):
     return m
 
 
+def run_ncread(ctx, case):
+    """A NetCDF variable with cells the file itself marks missing (_FillValue) read with an additional MissingValue: both
+    kinds of cells are missing in the result and in everything computed from it."""
+    from netCDF4 import Dataset
+    d = ctx.scratch()
+    path = os.path.join(d, "in.nc")
+    n = len(case["values"])
+    with Dataset(path, "w") as ds:
+        ds.createDimension("x", n)
+        v = ds.createVariable("var", "f8", ("x",), fill_value=-1e30)
+        v[:] = numpy.ma.array(numpy.array(case["values"], dtype="f8"), mask=numpy.array(case["fill"]))
+    mv = case["missing_value"]
+    want = [f or (x == mv) for x, f in zip(case["values"], case["fill"])]
+    prog = arr.new_program(arr.NC_LIBS, working_dir=d)
+    out = arr.invoke(prog, "EEMSRead", "X", {"InFileName": path, "InFieldName": "var", "MissingValue": mv})
+    ctx.count("netcdf_fill_mask_checks")
+    ctx.feature(("ncread", tuple(case["chain"]), sum(case["fill"]), mv == 4242.0))
+    prev = "X"
+    for j, cmd in enumerate(case["chain"]):
+        if not out.ok:
+            break
+        p = dict(CHAIN_PARAMS[cmd])
+        if arr.INPUT_STYLE[cmd] == "one":
+            p["InFieldName"] = prev
+        else:
+            p["InFieldNames"] = [prev, prev]
+        out = arr.invoke(prog, cmd, "S%d" % j, p)
+        prev = "S%d" % j
+    xin = prog.commands["X"]._result if prog.commands["X"].is_finished else None
+    if isinstance(xin, numpy.ndarray):
+        got = numpy.ma.getmaskarray(xin).tolist()
+        if got != want:
+            ctx.fail("ncread:%s" % ("file-missing-cell-present" if any(w and not g for g, w in zip(got, want)) else "valid-cell-missing"),
+                     {"got": got, "want": want, "fill_cells": case["fill"], "missing_value": mv})
+            return
+    if out.ok and isinstance(out.value, numpy.ndarray):
+        rm = numpy.ma.getmaskarray(out.value).tolist()
+        if any(w and not g for g, w in zip(rm, want)):
+            ctx.fail("ncread:%s:missing-cell-present" % "+".join(case["chain"]), {"result_mask": rm, "want_at_least": want})
+
+
 def run_case(ctx, case):
+    if case["kind"] == "ncread":
+        return run_ncread(ctx, case)
     if case["kind"] == "csv":
         return run_csv(ctx, case)
     cmd, params = case["cmd"], case["params"]
     fuzzy_in = cmd in arr.FUZZY_INPUT
-    ctx.feature(cmdgen.features(case))
+    ctx.feature(cmdgen.features(case) + (case["inputs"][0].get("kind", "ma"),))
     digests, outcomes = [], []
     first = None
     for pi, payload in enumerate(case["payloads"]):
